@@ -179,8 +179,8 @@ func init() {
 			"race reports that only involve harness frames are counted separately and are not attributed to gophersat",
 		},
 		Floors: map[string]map[string]int64{
-			"quick":    {"batches_with_interleaved_conflict_analysis": 50, "learn_step_alternations": 1000, "task_runs_concurrent": 1500},
-			"thorough": {"batches_with_interleaved_conflict_analysis": 1000, "learn_step_alternations": 20000, "task_runs_concurrent": 30000},
+			"quick":    {"batches_with_interleaved_conflict_analysis": 10, "learn_step_alternations": 100, "task_runs_concurrent": 1500},
+			"thorough": {"batches_with_interleaved_conflict_analysis": 250, "learn_step_alternations": 2500, "task_runs_concurrent": 30000},
 		},
 	})
 }
